@@ -56,6 +56,7 @@ type irGen struct {
 	allowInline   bool // inline closure calls
 	noDupLabels   bool
 	noReturn      bool // inside an inline closure body
+	allowVBlock   bool // VBlock ... End (a scope without braces)
 }
 
 func (g *irGen) list(d, n int, inLoop, inBreakable bool) []*irStmt {
@@ -183,6 +184,9 @@ func (g *irGen) stmt(d int, inLoop, inBreakable bool) *irStmt {
 			return s
 		})
 	case x < 90:
+		if g.allowVBlock && r.Intn(3) == 0 {
+			return &irStmt{K: "vblock", Body: g.list(d-1, n(), inLoop, inBreakable)}
+		}
 		return &irStmt{K: "block", Body: g.list(d-1, n(), inLoop, inBreakable)}
 	case x < 94:
 		// labeled plain statement
@@ -335,6 +339,10 @@ func (s *irStmt) src(b *strings.Builder, ind string, fn *irFunc) {
 		s.Body[0].src(b, ind, fn)
 	case "block":
 		w("{")
+		list(s.Body)
+		w("}")
+	case "vblock":
+		w("{ // VBlock: a scope of its own, no braces in the output")
 		list(s.Body)
 		w("}")
 	case "if":
@@ -774,6 +782,18 @@ func (b *irBuild) stmt1(s *irStmt, fn *irFunc) {
 		b.list(s.Body, fn)
 		cb.End()
 		b.op("Close:block")
+	case "vblock":
+		was := cb.InVBlock()
+		cb.VBlock()
+		b.op("Open:vblock")
+		in1 := cb.InVBlock()
+		b.list(s.Body, fn)
+		in2 := cb.InVBlock()
+		cb.End()
+		b.op("Close:vblock")
+		if b.balance != nil {
+			b.balance("vblock (InVBlock inside / after)", in1 && in2 && cb.InVBlock() == was)
+		}
 	case "if":
 		cb.If()
 		b.op("Open:if")
@@ -1004,6 +1024,8 @@ func (s *irStmt) c16(placed map[string]bool, rv bool) string {
 		return "(CLabeled " + coqBool(p) + " " + s.Body[0].c16(placed, rv) + ")"
 	case "block":
 		return "(CBlock " + c16List(s.Body, placed, rv) + ")"
+	case "vblock":
+		return "(CVBlock " + c16List(s.Body, placed, rv) + ")"
 	case "if":
 		body := c16List(s.Body, placed, rv)
 		e := "ENone"
@@ -1052,6 +1074,7 @@ var c16OpCode = map[string]string{
 	"InitStart": "ONop", "Label": "ONop", "Branch": "ONop", "NewFunc": "ONop", "NewClosure": "ONop",
 	"Open:block": "OOpen", "Open:if": "OOpen", "Open:for": "OOpen", "Open:range": "OOpen", "Open:switch": "OOpen",
 	"Open:case": "OOpen", "Open:tswitch": "OOpen", "Open:tcase": "OOpen", "Open:select": "OOpen", "Open:comm": "OOpen",
+	"Open:vblock": "OOpenV", "Close:vblock": "OCloseV",
 	"BodyStart": "OOpenFn", "Open:closure": "OOpenFn",
 	"Then:if": "OThenOpen", "Then:for": "OThenOpen",
 	"Then:switch": "OThenPop", "Then:tswitch": "OThenPop", "Then:range": "OThenPop",
